@@ -68,6 +68,14 @@ inline Path64 randomPath(int nmin, int nmax, int64_t R, int64_t cx = 0, int64_t 
   return p;
 }
 
+// make some edges exactly horizontal / vertical (still general position: the predicate decides)
+inline void axisAlignSome(Path64& p, int percent) {
+  for (size_t k = 1; k < p.size(); ++k) {
+    if (!G::chance(percent)) continue;
+    if (G::coin()) p[k].y = p[k - 1].y; else p[k].x = p[k - 1].x;
+  }
+}
+
 // star-ish ring around (cx,cy): radius in [rmin,rmax], n vertices with stratified angles
 inline Path64 ring(int n, int64_t cx, int64_t cy, double rmin, double rmax, bool ccw) {
   Path64 p;
@@ -117,13 +125,34 @@ struct GpCase { Paths64 subj, clip; std::string shape; };
 // one raw G-gp candidate; R = base coordinate range
 inline GpCase gpCandidate(int64_t R) {
   GpCase c;
-  int kind = (int)G::range(0, 9);
+  int kind = (int)G::range(0, 10);
   if (kind <= 4) {
     c.shape = "random";
     int ns = (int)G::range(1, 3), nc = (int)G::range(0, 3);
     int vmax = (int)G::range(3, 10);
     for (int k = 0; k < ns; ++k) c.subj.push_back(randomPath(3, vmax, R));
     for (int k = 0; k < nc; ++k) c.clip.push_back(randomPath(3, vmax, R));
+    if (G::chance(30)) {   // exactly horizontal / vertical edges exercise the horizontal-edge machinery without degeneracy
+      c.shape = "random_axis_edges";
+      int pct = (int)G::range(15, 50);
+      for (auto& p : c.subj) axisAlignSome(p, pct);
+      for (auto& p : c.clip) axisAlignSome(p, pct);
+    }
+  } else if (kind == 10) {
+    c.shape = "distinct_rectangles";   // rectilinear AND in general position: all coordinates pairwise distinct
+    int n = (int)G::range(2, 6);
+    std::vector<int64_t> xs, ys;
+    int64_t step = std::max<int64_t>(4, R / (2 * n));
+    for (int k = 0; k < 2 * n; ++k) { xs.push_back(-R / 2 + step * k + G::range(0, step / 2)); ys.push_back(-R / 2 + step * k + G::range(0, step / 2)); }
+    for (int k = 2 * n - 1; k > 0; --k) { std::swap(xs[k], xs[G::pick(k + 1)]); std::swap(ys[k], ys[G::pick(k + 1)]); }
+    for (int k = 0; k < n; ++k) {
+      int64_t x0 = std::min(xs[2 * k], xs[2 * k + 1]), x1 = std::max(xs[2 * k], xs[2 * k + 1]);
+      int64_t y0 = std::min(ys[2 * k], ys[2 * k + 1]), y1 = std::max(ys[2 * k], ys[2 * k + 1]);
+      Path64 p = {Point64(x0, y0), Point64(x1, y0), Point64(x1, y1), Point64(x0, y1)};
+      if (G::coin()) std::reverse(p.begin(), p.end());
+      (k == 0 || G::chance(55) ? c.subj : c.clip).push_back(p);
+    }
+    if (G::chance(40)) c.clip.push_back(randomPath(3, 7, R));
   } else if (kind == 5) {
     c.shape = "nested";
     c.subj = nestedRings((int)G::range(2, 5), G::sym(R / 8), G::sym(R / 8), (double)R * 0.9, G::coin());
